@@ -39,8 +39,7 @@ impl TransactionBody {
 //@ extract core/src/core/transaction.rs :: impl TransactionBody::validate
 //@   rewrite `let mut commits = vec![];` => `let mut commits: Vec<Commitment> = Vec::new();`
 //@   rewrite `let mut proofs = vec![];` => `let mut proofs: Vec<RangeProof> = Vec::new();`
-//@   rewrite `for x in &self.outputs {` => `for x in it: self.outputs.iter()`
-//@   rewrite `\t\t\t\tcommits.push(x.commitment());` => `\t\t\t{\n\t\t\t\tcommits.push(x.commitment());`
+//@   rewrite `for x in &self.outputs {` => `for x in it: self.outputs.iter() {`
 //@   rewrite `Output::batch_verify_proofs(&commits, &proofs)?;` => `Output::batch_verify_proofs(commits.as_slice(), proofs.as_slice())?;`
 //@   rewrite `TxKernel::batch_sig_verify(&self.kernels)?;` => `TxKernel::batch_sig_verify(self.kernels.as_slice())?;`
 //@   ensures:
